@@ -74,7 +74,12 @@ def _schedules(ctx, q):
 def run_ext(ctx):
     q = ctx.quick()
     # 1. the model: exhaustive within small constants; the named deviations are refuted
-    ctx.tlc_mc("synccrash", "MCSyncCrash.tla", "MC_SyncCrash_q.cfg" if q else "MC_SyncCrash_t.cfg", timeout=900, coverage=not q)
+    r = ctx.tlc_mc("synccrash", "MCSyncCrash.tla", "MC_SyncCrash_q.cfg" if q else "MC_SyncCrash_t.cfg", timeout=900, coverage=not q,
+                   must_cover=False)
+    if not q:   # vacuity guard; SpAlone exists only under the deviation SpBeforeClean
+        un = [a for a in vlib.uncovered_actions(r["out"]) if a != "SpAlone"]
+        if un:
+            raise vlib.Inconclusive("vacuity guard: actions of SyncCrash never taken: %s" % un)
     if not q:
         ctx.tlc_mc("synccrash", "MCSyncCrash.tla", "MC_SyncCrash_2c.cfg", timeout=900)
         ctx.tlc_mc("synccrash", "MCSyncCrash.tla", "MC_SyncCrash_anc.cfg", timeout=900)
@@ -94,7 +99,7 @@ def run_ext(ctx):
     json.dump(scheds, open(os.path.join(ind, "schedules.json"), "w"))
     # 3. the real node
     env = {"VERIF_IN": ind, "VERIF_WORLDS": nw, "VERIF_PER_WORLD": per, "VERIF_RANDOM": 3 if q else 5, "VERIF_POINTS": 12,
-           "VERIF_LONG_WORLDS": 0 if q else 2}
+           "VERIF_LONG_WORLDS": 1 if q else 3}
     res = ctx.go_driver("c02synccrash", "TestDriver", env=env, timeout=3400)
     ctx.absorb(res)
     ctx.traces_validated += res.get("traces", 0)
